@@ -40,6 +40,8 @@ CONSTANTS N,                  \* number of nodes; cfg.iter() visits 1, 2, .., N
           Runs,               \* number of runs of the pass (>= 2: the last one must change nothing)
           FirstVisitCounts,   \* TRUE: `changed |= visited.insert(node)`   (35309c1)
           WaitForVisited,     \* TRUE: a node none of whose predecessors was visited waits (3bcec8a, 8e3b21a)
+          UnvisitedIsTop,     \* TRUE: a node with predecessors none of which was visited starts from "everything" (the
+                              \*       u_def computation inside LivenessPass::run after its repair; it has no wait rule)
           RootsAreEntries     \* TRUE: a node that was promoted to a root starts from "nothing known" at every visit,
                               \*       like an entry of the program (FALSE: only at its first visit - the scheme
                               \*       that TLC refutes at N = 4: facts flip between two states for ever)
@@ -77,7 +79,8 @@ Visit ==
      IN IF ShouldWait(WaitForVisited, Prevs(n), visited, roots, n)
           THEN /\ waiting' = (IF waiting = 0 THEN n ELSE waiting)
                /\ UNCHANGED <<fin, fout, visited, changed, saved>>
-          ELSE LET i == RootIn(RootsAreEntries, roots, n, Meet(vp))
+          ELSE LET i == IF UnvisitedIsTop /\ Prevs(n) # {} /\ vp = {} THEN Facts
+                        ELSE RootIn(RootsAreEntries, roots, n, Meet(vp))
                    o == F(n, i)
                IN /\ fin'  = [fin  EXCEPT ![n] = i]
                   /\ fout' = [fout EXCEPT ![n] = o]
@@ -123,6 +126,7 @@ Spec == Init /\ [][Next]_vars /\ WF_vars(Next)
 SweepBound == sweeps <= ModelSweepLimit(N)
 \* a slice of the graphs for the negative control at N = 4 (PassLoop_old3.cfg)
 NoKill == \A n \in Nodes : kill[n] = {} /\ gen[n] = (IF n = N THEN Facts ELSE {})
+GenAt2 == \A n \in Nodes : kill[n] = {} /\ gen[n] = (IF n = 2 THEN Facts ELSE {})
 FixedPoint == (pc = "done" /\ ~cutDone) =>
                 \A n \in Nodes : /\ fin[n] = RootIn(RootsAreEntries, roots, n, Meet(Prevs(n)))
                                  /\ fout[n] = F(n, fin[n])
